@@ -398,3 +398,42 @@ pub fn self_test() -> Result<(), String> {
     }
     Ok(())
 }
+
+/// Byte layout of a (well-formed enough) file: offsets of every block, for structured mutation.
+#[derive(Clone, Debug, Default)]
+pub struct Layout {
+    /// start offsets of the two headers (second = None for v1)
+    pub headers: Vec<usize>,
+    /// per block (v1 block, then 64-bit block): [times, idx, types, chars, leaps, isstd, isut, end] offsets and the time width
+    pub blocks: Vec<([usize; 8], usize)>,
+    pub footer: Option<(usize, usize)>,
+}
+
+pub fn layout(bytes: &[u8]) -> Option<Layout> {
+    let mut r = R { b: bytes, p: 0 };
+    let mut lay = Layout::default();
+    let one = |r: &mut R<'_>, w: usize, lay: &mut Layout| -> Option<u8> {
+        lay.headers.push(r.p);
+        let h = read_header(r)?;
+        let mut o = [0usize; 8];
+        let sizes = [h.time as usize * w, h.time as usize, h.typ as usize * 6, h.chr as usize, h.leap as usize * (w + 4), h.isstd as usize, h.isut as usize];
+        let mut p = r.p;
+        for k in 0..7 {
+            o[k] = p;
+            p = p.checked_add(sizes[k])?;
+        }
+        o[7] = p;
+        if p > r.b.len() {
+            return None;
+        }
+        r.p = p;
+        lay.blocks.push((o, w));
+        Some(h.version)
+    };
+    let v = one(&mut r, 4, &mut lay)?;
+    if v != 0 {
+        one(&mut r, 8, &mut lay)?;
+        lay.footer = Some((r.p, bytes.len()));
+    }
+    Some(lay)
+}
